@@ -58,6 +58,8 @@ FAMILIES = [
     (r"^h_fail_child", "fail", []),
     (r"^h_(argv|ident|env_dup$|env_two|exe_override)", "ident", []),
     (r"^h_(lookup|split)", "lookup", []),
+    (r"^h_alloc", "alloc", []),
+    (r"^h_poll", "comm", []),
     (r"^h_(life|wait)", "life", []),
     (r"^h_comm", "comm", []),
     (r"^h_(build|shell|clone|set_|stdin_data|env_)", "builder", []),
